@@ -61,7 +61,8 @@ typedef unsigned __int128 v_u128;
     AWS_STATIC_IMPL T NAME(T a, T b)                                                                                   \
     __CPROVER_requires(1)                                                                                              \
     __CPROVER_assigns()                                                                                                \
-    __CPROVER_ensures((FITS) ? WIDE(RET) == (EXACT) : RET == (SAT))
+    __CPROVER_ensures((FITS) ==> WIDE(RET) == (EXACT))                                                                 \
+    __CPROVER_ensures(!(FITS) ==> RET == (SAT))
 
 /* exact results */
 #define ADD32_FITS (W64(a) + W64(b) <= UINT32_MAX)
